@@ -24,3 +24,8 @@ claim("C16", "other", "nil-ness dominance check on results of may-return-(nil,ni
       "Narrow: decides only that Len and the block visits (and every other internal user of GetItem/MinItem/MaxItem/walk) test the item result against nil before any field access, i.e. the empty-collection clause. The 'exactly once at every size and block permutation' clause depends on block arithmetic over run-time counts and is not decided (DESIGN §5 D5 documents a duplicate visit in VisitItemsRandom that no sound static rule here sees).",
       "Trusted: go/ssa dominance; the may-return-(nil,nil) summary is computed from the getters' own returns.",
       "DESIGN.md §4 C16")
+
+claim("C08", "other", "loop-variant discipline on Store.size (natural loops, abstract callee outcomes) + guard dominance",
+      "Decides termination of the backward root scan structurally: every cursor-moving loop decrements on every cycle, re-tests the floor on every cycle, leaves the loop on the floor outcome (interprocedurally, by re-exploring the caller with the callee's abstract result tuple) and keeps no non-decrement cursor write inside the loop; plus memory-only rejection first, Truncate only behind !readOnly and a successful scan with the scanned size, collections dropped and cursor stepped back before the scan. A strictly decreasing, bounded integer variant is a termination proof of the scan given terminating file reads; that the state reached equals the previous Flush exactly is not decided.",
+      "Trusted: go/ssa natural-loop structure; file reads return (errors exit the loops: C07 E1).",
+      "DESIGN.md §4 C08")
